@@ -1,6 +1,7 @@
 // C20 - writers refuse quantities that do not fit their on-disk fields.
 // Every limit is enumerated at and just beyond: VOL member sizes and accumulated offsets (sparse files), CLM data
 // offsets and name lengths, size-prefixed containers, the 32-bit container size of maps, frame layer counts.
+#include <sys/mman.h>
 #include "mc/mc.hpp"
 #include "ref/ref_vol.hpp"
 #include "ref/ref_clm.hpp"
@@ -181,37 +182,48 @@ void prefixLimit(Ctx& ctx, const char* name)
 	}
 }
 
-// 32- and 64-bit prefixes: a container of 2^32 elements cannot be built, so a stand-in reports such a size (its data pointer is
-// never followed: the writer below only counts). Refusal iff the size does not fit the prefix, nothing written on refusal.
+// 32- and 64-bit prefixes: a container of 2^32 elements cannot be built in the ordinary way, so a stand-in reports such a size.
+// Up to 8 GiB its elements really exist (untouched, lazily mapped zero pages: a writer that copies them may), beyond that
+// no memory can back it and the pointer must never be followed: such a size fits no prefix narrower than 64 bits and has to
+// be refused before anything is read or written. The writer below only counts, and keeps the first eight bytes it is given.
 struct ClaimsToBeHuge {
 	using value_type = char;
-	std::size_t n;
-	explicit ClaimsToBeHuge(std::size_t n) : n(n) {}
-	~ClaimsToBeHuge() {}                                   // not trivially copyable: takes the container overloads
+	std::size_t n; char* mapped = nullptr;
+	explicit ClaimsToBeHuge(std::size_t n) : n(n)
+	{
+		if (n > 0 && n <= (std::size_t(1) << 33)) { void* p = ::mmap(nullptr, n, PROT_READ, MAP_PRIVATE | MAP_ANONYMOUS | MAP_NORESERVE, -1, 0); if (p != MAP_FAILED) mapped = static_cast<char*>(p); }
+	}
+	ClaimsToBeHuge(const ClaimsToBeHuge&) = delete;
+	~ClaimsToBeHuge() { if (mapped) ::munmap(mapped, n); }   // not trivially copyable: takes the container overloads
 	std::size_t size() const { return n; }
-	const char* data() const { static const char few[16] = { 0 }; return few; }
+	const char* data() const { static const char few[16] = { 0 }; return mapped ? mapped : few; }
 	const char* begin() const { return data(); }
-	const char* end() const { return data() + (n < 16 ? n : 16); }
+	const char* end() const { return data() + (mapped ? n : (n < 16 ? n : 16)); }
 };
 struct OnlyCounts : Stream::Writer {
 	uint64_t total = 0; std::vector<uint8_t> head;
-	void WriteImplementation(const void* buffer, std::size_t size) override { if (head.size() < 8 && size <= 8) { const uint8_t* p = static_cast<const uint8_t*>(buffer); head.insert(head.end(), p, p + size); } total += size; }
+	void WriteImplementation(const void* buffer, std::size_t size) override { if (head.size() < 8) { const uint8_t* p = static_cast<const uint8_t*>(buffer); head.insert(head.end(), p, p + std::min<std::size_t>(size, 8 - head.size())); } total += size; }
 };
 template <class S>
 void widePrefixLimit(Ctx& ctx, const char* name)
 {
 	const uint64_t maxv = uint64_t(std::numeric_limits<S>::max());
-	std::vector<uint64_t> sizes = { 0, 5, maxv - 1, maxv };
+	std::vector<uint64_t> sizes = { 0, 5, 16, maxv - 1, maxv, (uint64_t(1) << 32) + 6 };
 	if (maxv < ~uint64_t(0)) for (uint64_t z : { maxv + 1, maxv + 6, maxv * 2 + 1, ~uint64_t(0) >> 1, ~uint64_t(0) }) sizes.push_back(z);
 	for (uint64_t z : sizes) {
 		if (z > uint64_t(std::numeric_limits<std::size_t>::max())) continue;
 		OnlyCounts w; ClaimsToBeHuge c{ std::size_t(z) };
+		// a size that fits the prefix is a container that could exist: it is tried only when its elements really are there
+		if (z <= maxv && z > 16 && !c.mapped) { ctx.count("prefix/fitting-size-no-memory-can-back"); continue; }
 		auto o = mc::guarded([&] { w.template Write<S>(c); });
 		ctx.transition();
 		std::string key = std::string("Write<") + name + ">(container reporting " + std::to_string(z) + " elements)";
 		if (z > maxv) { ctx.count("prefix/beyond-the-limit-wide"); if (o.cls == 'R') ctx.violation(std::string("C20/prefix/accepted-oversize/") + name, key, "prefix written: " + mc::hex(w.head.data(), w.head.size())); else if (w.total != 0) ctx.violation("C20/prefix/partial-output-on-refusal", key, std::to_string(w.total) + " bytes"); }
 		else {
 			ctx.count("prefix/at-the-limit-wide");
+			// a writer that assembles prefix and data in memory first needs as much memory again as the container: under the
+			// harness's allocation cap that is an exhausted resource, not a verdict on the limit
+			if (o.cls != 'R' && z > (uint64_t(1) << 20) && o.what.find("bad_alloc") != std::string::npos) { ctx.count("prefix/at-the-limit-wide-out-of-memory"); continue; }
 			if (o.cls != 'R') { ctx.violation(std::string("C20/prefix/refused-fitting/") + name, key, o.what); continue; }
 			uint64_t field = 0; for (std::size_t i = 0; i < sizeof(S) && i < w.head.size(); ++i) field |= uint64_t(w.head[i]) << (8 * i);
 			if (w.head.size() < sizeof(S) || field != z || w.total != sizeof(S) + z) ctx.violation(std::string("C20/prefix/field-value/") + name, key, std::to_string(field) + ", " + std::to_string(w.total) + " bytes in all");
